@@ -450,6 +450,10 @@ def random_trace(rng, const, flavour, length, ops, scratch=None):
         a = absheap[o]
         op = str(rng.choice(ops))
         nr, npat = len(a['rows']), len(a['pats'])
+        if nr == 0 or npat == 0:
+            # an empty object can only come from a faulty operation: it is in the recorded post-state of that step
+            # (the trace specification rejects it there); do not build further events on it
+            break
         free = free_slot(heap, maxobj) is not None
         e = {'op': op, 'o': o, 'o2': 0, 'by': '', 'vals': [], 'by2': '', 'vals2': []}
 
